@@ -16,6 +16,8 @@ ENVS = [{'LANG': 'C', 'LC_ALL': 'C'}, {'LANG': 'tr_TR.UTF-8', 'LC_ALL': 'tr_TR.U
         {'HOME': '/nonexistent', 'COLUMNS': '20', 'PYTHONUTF8': '1', 'TERM': 'dumb'},
         {'COLUMNS': '200', 'LINES': '60', 'TERM': 'xterm-256color', 'FORCE_COLOR': '1', 'CLICOLOR_FORCE': '1'},
         {'COLUMNS': '1000', 'LINES': '5', 'NO_COLOR': '1', 'USER': 'nobody', 'TMPDIR': '/nonexistent'},
+        # variables whose names read as hexadecimal digits (a value written $CC is a number, never a variable reference)
+        {'CC': 'gcc', 'AB': '$10', 'FACE': '7', 'DEAD': '0x11', 'A1': '99'},
         # two home directories inside the scratch directory (they hold decoy copies in the "~" cases)
         {'HOME': '{SCRATCH}/home1', 'USERPROFILE': '{SCRATCH}/home1'}, {'HOME': '{SCRATCH}/home2', 'XDG_CONFIG_HOME': '{SCRATCH}/home2'}]
 FORMATS = c16.FORMATS
@@ -184,7 +186,7 @@ class C15(core.Check):
         isa = gen_prog.layout_isa(16)
         fn, text = isamod.render_isa(isa, 'json')
         src_d = '#if MODE == 1\n.byte $11\n#elif MODE == 2\n.byte $22\n#else\n.byte $33\n#endif\n.byte MODE, LVL\n#ifdef EXTRA\n.byte EXTRA\n#endif\n'
-        for k, dargs in enumerate([['MODE=1', 'LVL=2'], ['LVL=2', 'MODE=1', 'EXTRA=7'], ['MODE=1', 'MODE=2', 'LVL=3'], ['MODE=2', 'MODE=1', 'LVL=3'],
+        for k, dargs in enumerate([['MODE=$CC', 'LVL=$AB', 'EXTRA=$A1'], ['MODE=2', 'LVL=$FACE & 255', 'EXTRA=${DEAD}'], ['MODE=1', 'LVL=2'], ['LVL=2', 'MODE=1', 'EXTRA=7'], ['MODE=1', 'MODE=2', 'LVL=3'], ['MODE=2', 'MODE=1', 'LVL=3'],
                                    ['MODE=1', 'LVL=3', 'MODE=1'], ['MODE=2', 'LVL=4', 'EXTRA', 'EXTRA=5'], ['LVL=1', 'LVL=2', 'LVL=3', 'MODE=3']]):
             extra = list(itertools.chain.from_iterable(('-D', a_) for a_ in dargs))
             dup = len({a_.split('=')[0] for a_ in dargs}) < len(dargs)
